@@ -1,5 +1,5 @@
 SPECIFICATION SSpec
 CONSTANTS
-  EPs = {"execv2", "execv1", "execmutate", "graffiti", "builderbid", "proposalbest", "proposer", "attester", "aggregator", "syncmessenger", "syncaggregator", "mergeduties", "cacheevents", "submitclassify"}
+  EPs = {"execv2", "execv1", "execmutate", "execdoc", "execservice", "graffiti", "builderbid", "proposalbest", "proposer", "attester", "aggregator", "syncmessenger", "syncaggregator", "mergeduties", "cacheevents", "submitclassify"}
 INVARIANTS Emit TypeOK
 CHECK_DEADLOCK FALSE
